@@ -311,10 +311,10 @@ func (g *gmectx) errorInfeasible(r *ssa.Return, firstEffect ssa.Instruction, isE
 			b := callee.Params[0]
 			list = func(v ssa.Value) bool { f, base, ok := loadedField(v); return ok && f == "MultiEndpointOptions.Endpoints" && base == ssa.Value(b) }
 		}
-		cs := newCondSpace(callee, recOf(eqAtom("empty", func(v ssa.Value) bool {
+		cs := newCondSpace(callee, recOf(lenZeroAtom("empty", func(v ssa.Value) bool {
 			call, ok := stripConv(v).(*ssa.Call)
 			return ok && calleeOf(&call.Call).Builtin == "len" && list(call.Call.Args[0])
-		}, constIs(0))), "empty")
+		})), "empty")
 		if !cs.Seen("empty") {
 			return false, fname(callee) + " does not test its list for emptiness"
 		}
@@ -376,14 +376,14 @@ func (g *gmectx) errorInfeasible(r *ssa.Return, firstEffect ssa.Instruction, isE
 		isV := vl.val
 		atoms := []atomDef{
 			eqAtom("nilEntry", isV, isNil),
-			eqAtom("emptyList", func(v ssa.Value) bool {
+			lenZeroAtom("emptyList", func(v ssa.Value) bool {
 				call, ok := stripConv(v).(*ssa.Call)
 				if !ok || calleeOf(&call.Call).Builtin != "len" {
 					return false
 				}
 				f, base, isL := loadedField(call.Call.Args[0])
 				return isL && f == "MultiEndpointOptions.Endpoints" && isV(base)
-			}, constIs(0)),
+			}),
 		}
 		vcs := newCondSpace(upd, recOf(atoms...), atomNames(atoms...)...)
 		if !vcs.Seen("emptyList") {
